@@ -1,0 +1,86 @@
+//go:build verif
+
+// Contracts for package cache (C19), checked by /verif/govc (comment-only file).
+
+package cache
+
+//@ # ---- jump hash placement -----------------------------------------------------------
+//@ # The floating point step is not modelled; the single fact used is assumed at the end of each
+//@ # iteration: the next jump index is strictly larger than the current bucket (listed as an assumption).
+//@ func jumpHash
+//@   property C19
+//@   ensures  range: 1 <= numBuckets && numBuckets <= 2147483647 ==> 0 <= result && result < numBuckets
+//@   ensures  none: numBuckets <= 0 ==> result == -1
+//@   loop 0 invariant (numBuckets <= 0 ==> b == -1) && -1 <= b && b < j && (b >= 0 || j == 0) && (numBuckets >= 1 ==> b < numBuckets) && j >= 0
+//@   loop 0 end assume j >= b + 1
+//@
+//@ func MemcachedJumpHashSelector.PickServer
+//@   property C19
+//@   requires len(s.addrs) <= 2147483647
+//@   ensures  r1 == nil ==> len(s.addrs) >= 1
+//@   ensures  len(s.addrs) == 0 ==> r1 != nil
+//@   modifies nothing
+//@
+//@ # ---- versioned keys --------------------------------------------------------------------
+//@ func Versioned.addVersion
+//@   property C19
+//@   ensures result == c.versionPrefix + k
+//@   pure
+//@
+//@ func Versioned.removeVersion
+//@   property C19
+//@   ensures hasPrefix(k, c.versionPrefix) ==> result == k[len(c.versionPrefix):len(k)]
+//@   ensures !hasPrefix(k, c.versionPrefix) ==> result == k
+//@   pure
+//@
+//@ # removeVersion(addVersion(k)) == k  (string extensionality instantiated on the two strings)
+//@ lemma versionRoundTrip(p string, k string)
+//@   property C19
+//@   ensures hasPrefix(p + k, p) && len((p + k)[len(p):len(p + k)]) == len(k) &&
+//@           (forall i int :: 0 <= i && i < len(k) ==> (p + k)[len(p):len(p + k)][i] == k[i])
+//@
+//@ # prefixes "<digits>@": two versioned keys are equal only if version prefix and key are equal
+//@ pred isVersionPrefix(p string) = len(p) >= 2 && p[len(p)-1] == '@' && (forall i int :: 0 <= i && i < len(p)-1 ==> '0' <= p[i] && p[i] <= '9')
+//@ lemma versionsNeverAlias(p string, q string, k string, l string)
+//@   property C19
+//@   requires isVersionPrefix(p) && isVersionPrefix(q) && p + k == q + l
+//@   ensures  len(p) == len(q) && (forall i int :: 0 <= i && i < len(p) ==> p[i] == q[i]) &&
+//@            len(k) == len(l) && (forall i int :: 0 <= i && i < len(k) ==> k[i] == l[i])
+//@   proof
+//@   assert len(p) <= len(q) ==> (p + k)[len(p)-1] == '@' && (q + l)[len(p)-1] == '@' && (len(p) < len(q) ==> q[len(p)-1] == '@')
+//@   assert len(q) <= len(p) ==> (q + l)[len(q)-1] == '@' && (p + k)[len(q)-1] == '@' && (len(q) < len(p) ==> p[len(q)-1] == '@')
+//@   assert len(p) == len(q)
+//@   assert forall i int :: 0 <= i && i < len(p) ==> (p + k)[i] == p[i] && (q + l)[i] == q[i]
+//@   assert len(p + k) == len(q + l) && len(k) == len(l)
+//@   assert forall i int :: 0 <= i && i < len(k) ==> (p + k)[len(p) + i] == k[i] && (q + l)[len(q) + i] == l[i]
+//@
+//@ # ---- the in-process reference backend (virtual clock m.now) ------------------------------
+//@ pred liveAt(m MockCache, k string) = in(k, m.cache) && ns(m.now) < ns(m.cache[k].ExpiresAt)
+//@ pred sameCacheExcept(a map[string]Item, b map[string]Item, k string) = forall j string :: j != k ==> (in(j, a) <==> in(j, b)) && (in(j, a) ==> a[j] == b[j])
+//@
+//@ func MockCache.Set
+//@   property C19
+//@   requires !isnil(m.cache)
+//@   ensures  result == nil && in(key, m.cache) && same(m.cache[key].Data, value) && ns(m.cache[key].ExpiresAt) == ns(m.now) + ttl
+//@   ensures  sameCacheExcept(m.cache, old(m).cache, key) && same(m.now, old(m).now)
+//@
+//@ func MockCache.Add
+//@   property C19
+//@   requires !isnil(m.cache)
+//@   ensures  liveAt(old(m), key) ==> result == ErrNotStored && same(m.cache, old(m).cache)
+//@   ensures  !liveAt(old(m), key) ==> result == nil && in(key, m.cache) && same(m.cache[key].Data, value) && ns(m.cache[key].ExpiresAt) == ns(m.now) + ttl
+//@   ensures  sameCacheExcept(m.cache, old(m).cache, key) && same(m.now, old(m).now)
+//@
+//@ func MockCache.Delete
+//@   property C19
+//@   ensures  result == nil && !in(key, m.cache) && sameCacheExcept(m.cache, old(m).cache, key) && same(m.now, old(m).now)
+//@
+//@ func MockCache.GetMultiWithError
+//@   property C19
+//@   ensures  r1 == nil
+//@   ensures  onlylive: forall k string :: in(k, r0) ==> liveAt(m, k) && same(r0[k], m.cache[k].Data)
+//@   ensures  complete: forall j int :: 0 <= j && j < len(keys) ==> liveAt(m, keys[j]) ==> in(keys[j], r0)
+//@   loop 0 invariant !isnil(found) && same(now, m.now)
+//@   loop 0 invariant forall k string :: in(k, found) ==> liveAt(m, k) && same(found[k], m.cache[k].Data)
+//@   loop 0 invariant forall j int :: 0 <= j && j < $i ==> liveAt(m, keys[j]) ==> in(keys[j], found)
+//@   modifies nothing
